@@ -192,11 +192,68 @@ def real_cycles(res, n):
         c = settle(mid)
         if c != mid:
             problems.append(f"after {n} failing schedule() calls: (fds, threads) {mid} -> {c}")
+        # (4) the emitter's own shutdown: the watched root is deleted while the observer runs
+        for i in range(n):
+            d = os.path.join(base, f"gone{i}")
+            os.mkdir(d)
+            o.schedule(FileSystemEventHandler(), d, recursive=True)
+            em = next(e for e in o.emitters if e.watch.path == d)
+            os.rmdir(d)
+            em.join(5)
+            if em.is_alive():
+                problems.append("emitter still alive 5 s after its root was deleted")
+                break
+        c = settle(mid)
+        if c != mid:
+            problems.append(f"after {n} root deletions (emitter's own shutdown): (fds, threads) {mid} -> {c}")
         o.stop()
         o.join()
         c = settle(before)
         if c != before:
             problems.append(f"after final stop: (fds, threads) {before} -> {c}")
+        # (5) the emitter's thread cannot be started (after its inotify buffer was built): start() and schedule() paths
+        import watchdog.observers.inotify as inomod
+
+        real_thread_start = threading.Thread.start
+        fail = {"on": False}
+
+        def failing_start(self):
+            if fail["on"] and isinstance(self, inomod.InotifyEmitter):
+                raise RuntimeError("can't start new thread")
+            return real_thread_start(self)
+
+        threading.Thread.start = failing_start
+        try:
+            for _ in range(n):
+                o = InotifyObserver()
+                o.schedule(FileSystemEventHandler(), base, recursive=True)
+                fail["on"] = True
+                try:
+                    o.start()
+                except RuntimeError:
+                    pass
+                fail["on"] = False
+                o.stop()
+            c = settle(before)
+            if c != before:
+                problems.append(f"after {n} start() calls whose emitter thread could not be started: (fds, threads) {before} -> {c}")
+            o = InotifyObserver()
+            o.start()
+            mid2 = counts()
+            for _ in range(n):
+                fail["on"] = True
+                try:
+                    o.schedule(FileSystemEventHandler(), base, recursive=True)
+                except RuntimeError:
+                    pass
+                fail["on"] = False
+            c = settle(mid2)
+            if c != mid2:
+                problems.append(f"after {n} schedule() calls whose emitter thread could not be started: (fds, threads) {mid2} -> {c}")
+            o.stop()
+            o.join()
+        finally:
+            threading.Thread.start = real_thread_start
         res.count(4 * n)
         res.bump("real_kernel_cycles", 3 * n)
         return problems
